@@ -116,7 +116,7 @@ func runC01(c *eng.Ctx, tier string) {
 				}
 				nameVal = m.NameP
 			}
-			ok := false
+			ok := m.Name == "List" && d.filteredByCheck(nameVal, m.Caller, action)
 			var near []string
 			for _, cond := range factsDeep(s.In) {
 				matched, why := d.successfulCheck(cond, m.Caller, action, nameVal)
@@ -428,6 +428,10 @@ func c01List(c *eng.Ctx, d *dbInfo) {
 					if matched, _ := d.successfulCheck(cond, m.Caller, "info", nameVal); matched {
 						ok = true
 					}
+				}
+				// or the name comes out of a list already filtered by that check
+				if !ok && d.filteredByCheck(nameVal, m.Caller, "info") {
+					ok = true
 				}
 			}
 			c.Check(ok, "R-C01-4", f, in.Pos(), "append "+eng.ValStr(e), "entry appended to List's result is edge-dominated by caller.Permissions.Allow(info, <same name>)==true", "holding here: "+factsStr(factsDeep(in)))
